@@ -124,6 +124,7 @@ def run(R):
     r3(R)
     r4(R)
     r5(R)
+    r6(R)
     # conforming sibling (cited): execute_window_plans_on_external_buckets builds a fresh database per window
     sib = prog.one("rsp_engine::execute_window_plans_on_external_buckets", crate="kolibrie")
     if sib is not None:
@@ -472,3 +473,61 @@ def _producers(prog, b, op, out, depth=0):
             elif d[0] == "assign":
                 for p2, k2 in F.rv_places(d[3]):
                     _producers(prog, b, {"k": "copy", "pl": p2}, out, depth + 1)
+
+
+def r6(R):
+    """per-window bookkeeping is keyed by the result's own window"""
+    from lib import pipeline as P
+    prog = R.prog
+    R.rule("C11-R6", "per-window bookkeeping is keyed by the window the data came from: wherever the coordinator (or the single-thread "
+                     "collector) files the results / raw content of a received WindowResult into a per-window map, the key is that "
+                     "same WindowResult's window_iri - never the IRI of another result")
+    WR = "kolibrie::rsp_engine::WindowResult"
+    n = 0
+    for b in sorted(prog.bodies.values(), key=lambda x: x.key):
+        if b.crate != "kolibrie" or not b.file.endswith("rsp_engine.rs") or "::tests::" in b.key:
+            continue
+        wr_locals = [i for i, l in enumerate(b.locals) if l.get("ty", "").replace("&mut ", "").replace("&", "") == WR and l.get("name")]
+        if not wr_locals:
+            continue
+
+        def wr_roots(op):
+            pl = F.op_place(op)
+            if pl is None:
+                return set()
+            out = set()
+            seen = set()
+            work = [pl["l"]]
+            while work:
+                l = work.pop()
+                if l in seen:
+                    continue
+                seen.add(l)
+                if l in wr_locals:
+                    out.add(l)
+                    continue
+                for d in b.defs().get(l, []):
+                    if d[0] in ("assign", "partial"):
+                        for p2, k2 in F.rv_places(d[3]):
+                            work.append(p2["l"])
+                    elif d[0] in ("call", "partial_call") and d[2].name() in ("clone", "deref", "to_string", "to_owned", "into", "as_str", "borrow", "as_ref"):
+                        for a in d[2].args:
+                            p2 = F.op_place(a)
+                            if p2 is not None:
+                                work.append(p2["l"])
+            return out
+        for c in b.calls():
+            if c.name() != "insert" or len(c.args) != 3:
+                continue
+            vroots = wr_roots(c.args[2])
+            if not vroots:
+                continue
+            kroots = wr_roots(c.args[1])
+            n += 1
+            R.saw(b)
+            ok = kroots == vroots and len(kroots) == 1
+            R.ob("C11-R6", "keyed:%s:%d" % (b.short, n), "in %s the data of `%s` is filed under that result's own window_iri (key taken from %s)"
+                 % (b.short, "/".join(sorted(b.local_name(l) for l in vroots)), sorted(b.local_name(l) for l in kroots) or "another value"), ok,
+                 where=b.where(c.ln), detail=None if ok else "one window's reported content is stored as another window's content: that window's block is "
+                 "then evaluated over items of a foreign stream")
+    R.floor("C11-R6", "per-window insertions of received results", n, 4)
